@@ -201,22 +201,24 @@ func init() {
 		if as := findFunc(parse("internal/server/communicator.go"), "ConnectionHandler", "acceptStream"); as == nil {
 			fail("communicator.go: acceptStream not found")
 		} else {
+			// the branch taken on `err != nil` (an if, an else-if or a case of a switch alike) that closes the session
 			var branch *ast.BlockStmt
-			ast.Inspect(as.Body, func(n ast.Node) bool {
-				if ifs, ok := n.(*ast.IfStmt); ok && branch == nil && src(ifs.Cond) == "err != nil" {
-					closes := false
-					ast.Inspect(ifs.Body, func(m ast.Node) bool {
-						if c, ok := m.(*ast.CallExpr); ok && strings.HasSuffix(src(c.Fun), "Close") && len(c.Args) == 1 && strings.Contains(src(c.Args[0]), "session") {
-							closes = true
-						}
-						return true
-					})
-					if closes {
-						branch = ifs.Body
-					}
+			for _, g := range errBranches14(as.Body) {
+				if branch != nil || condText14(g) != "err!=nil" {
+					continue
 				}
-				return true
-			})
+				blk := &ast.BlockStmt{List: g.body}
+				closes := false
+				ast.Inspect(blk, func(m ast.Node) bool {
+					if c, ok := m.(*ast.CallExpr); ok && strings.HasSuffix(src(c.Fun), "Close") && len(c.Args) == 1 && strings.Contains(src(c.Args[0]), "session") {
+						closes = true
+					}
+					return true
+				})
+				if closes {
+					branch = blk
+				}
+			}
 			if branch == nil {
 				fail("communicator.go acceptStream: the `err != nil` branch that closes the session not found")
 			} else {
